@@ -11,6 +11,11 @@
 #include <string.h>
 #include <unistd.h>
 #include <malloc.h>
+/* embedder page cap of the reference: growth beyond it fails "for lack of resources" (the specification permits that).  A driver that makes the
+   implementation's allocator fail above the same size (-Drealloc=ls_realloc, see checks/c05.py) sets it to a small number. */
+#ifndef LS_PAGE_CAP
+#define LS_PAGE_CAP 65535
+#endif
 #include "wasmref.h"
 
 typedef void (*ls_tramp)(void *fn, void *inst, const uint64_t *args, uint64_t *res);
@@ -180,12 +185,15 @@ static int ls_init(const char *wasm_path, void *(*resolve)(const char *, const c
     size_t n; uint8_t *b = ls_slurp(wasm_path, &n); char err[128]; wr_env env;
     struct sigaction sa;
     if (!b) { printf("ERROR cannot read %s\n", wasm_path); return 0; }
+    /* environment: memory handed out by malloc/realloc is never zero by accident (glibc fills it with a pattern), freed memory is overwritten:
+       code that relies on fresh heap memory being zero, or reads freed memory, shows up deterministically.  calloc still zeroes. */
+    mallopt(M_PERTURB, 0x5A);
     ls_mod = wr_load(b, n, err, sizeof err); free(b);
     if (!ls_mod) { printf("ERROR reference cannot load module: %s\n", err); return 0; }
     if (envin) env = *envin; else memset(&env, 0, sizeof env);
     if (!env.host_call) env.host_call = ls_host_ref;
     if (!env.fuel) env.fuel = 200000;
-    if (!env.page_cap) env.page_cap = 65535; /* the runtime keeps the byte size in 32 bits: 65536 pages are a resource limit the spec permits */
+    if (!env.page_cap) env.page_cap = LS_PAGE_CAP; /* the runtime keeps the byte size in 32 bits: 65536 pages are a resource limit the spec permits */
     ls_tr_ref.n = 0;
     ls_ref = wr_instantiate(ls_mod, &env);
     if (ls_ref->start_trap) { printf("ERROR reference instantiation trapped: %s\n", wr_trap_name(ls_ref->start_trap)); return 0; }
@@ -269,7 +277,7 @@ static uint64_t ls_state_hash(unsigned flags) {
 }
 static void ls_fresh(const wr_env *env) {
     wr_env e; if (env) e = *env; else memset(&e, 0, sizeof e);
-    if (!e.host_call) e.host_call = ls_host_ref; if (!e.fuel) e.fuel = 200000; if (!e.page_cap) e.page_cap = 65535;
+    if (!e.host_call) e.host_call = ls_host_ref; if (!e.fuel) e.fuel = 200000; if (!e.page_cap) e.page_cap = LS_PAGE_CAP;
     wr_free_instance(ls_ref); ls_ref = wr_instantiate(ls_mod, &e);
     mFreeInstance(&ls_inst); memset(&ls_inst, 0, sizeof ls_inst);
     ls_in_impl = 1; if (setjmp(ls_jb) == 0) mInstantiate(&ls_inst, ls_user_resolve ? ls_user_resolve : ls_resolve_default); ls_in_impl = 0;
@@ -364,7 +372,7 @@ static int ls_main_seq2(int argc, char **argv, const ls_func *funcs, int nfuncs,
             for (j = 0; j < len; j++) { const ls_op2 *o = &ops[idx[j]]; if (o->inst >= 2) { if (haveB) pruned = 1; haveB = 1; } else if (o->inst == 1 && !haveB) pruned = 1; }
             if (!pruned) {
                 wr_env e; if (ls_user_env) e = *ls_user_env; else memset(&e, 0, sizeof e);
-                if (!e.host_call) e.host_call = ls_host_ref; if (!e.fuel) e.fuel = 200000; if (!e.page_cap) e.page_cap = 65535;
+                if (!e.host_call) e.host_call = ls_host_ref; if (!e.fuel) e.fuel = 200000; if (!e.page_cap) e.page_cap = LS_PAGE_CAP;
                 wr_free_instance(refA); mFreeInstance(&ls_inst);
                 if (refB) { wr_free_instance(refB); refB = NULL; mFreeInstance(pB); if (pB != &instB) { free(pB); pB = &instB; } }
                 if (ls_env_reset) ls_env_reset();
